@@ -8,6 +8,7 @@ invariant from the sidecar.  Exceptions are control flow.
 from __future__ import annotations
 
 import ast
+import os
 import builtins as _pybuiltins
 
 import z3
@@ -115,7 +116,10 @@ class Executor:
             return True
         self.feas_checks += 1
         s = z3.Solver()
-        s.set("timeout", 4000)
+        # a resource limit, not a wall-clock one: whether a fork is explored must not depend on how busy the machine is (`unknown` counts as feasible, which is sound);
+        # the wall-clock limit is only a backstop
+        s.set("rlimit", int(os.environ.get("PYVC_FEAS_RLIMIT", "1000000")))
+        s.set("timeout", 20000)
         s.add(*st.pc)
         from .smt import instantiate_axioms
 
